@@ -169,6 +169,7 @@ func main() {
 	reps := flag.Int("reps", 1, "repeat every case this many times (replay of schedule-dependent cases)")
 	deferred := flag.Float64("deferred", 0, "every scope without a deferred group gets one with this probability (0 = the profiles as they are)")
 	racestart := flag.Int("racestart", 0, "k >= 2: call Workstream.Start from k goroutines released together (exactly one must succeed)")
+	cancelctx := flag.Float64("cancelctx", 0.5, "probability that Start gets a context which is cancelled 0-3 ms after Start returned (must not affect execution)")
 	workers := flag.Int("workers", 0, "child processes (default: min(16, NumCPU))")
 	flag.Parse()
 	if *isChild {
@@ -220,7 +221,7 @@ func main() {
 	}
 	var jobs []job
 	for i := 0; i < len(idx); i += max(1, *multi) {
-		jobs = append(jobs, job{Idx: idx[i:min(len(idx), i+max(1, *multi))], Profile: *profile, Poll: *poll, Opts: engine.Options{DeferredP: *deferred, RaceStart: *racestart}})
+		jobs = append(jobs, job{Idx: idx[i:min(len(idx), i+max(1, *multi))], Profile: *profile, Poll: *poll, Opts: engine.Options{DeferredP: *deferred, RaceStart: *racestart, CancelCtxP: *cancelctx}})
 	}
 	nw := *workers
 	if nw <= 0 {
